@@ -574,6 +574,12 @@ fn run_threads(ops: &[&str]) -> String {
                             "-".to_string()
                         }
                         "g" => mode_name(RoundingMode::default()).to_string(),
+                        // probe: five roundings that together identify the mode actually used
+                        "p" => [15, 25, -15, 21, 5]
+                            .iter()
+                            .map(|c| Decimal::new_raw(*c, 1).round(0).coefficient().to_string())
+                            .collect::<Vec<_>>()
+                            .join(","),
                         "r" => show(dec(parts[2], parts[3]).round(parts[4].parse::<i8>().unwrap_or_else(|_| panic!("bad-input"))))
                             .replace(' ', ","),
                         _ => "bad-op".to_string(),
